@@ -6,13 +6,24 @@ from analysis.facts import norm_path
 from analysis.sym import sym, show_in, nosite, peel, core, walk, ret_values, args_of, guards_at, atoms_at, \
     variant_facts_at, cmp_facts_at, init_value, edge_guards, symbolizer, simplify, loop_source, defs_of, var_defs
 from analysis.pat import match, Call, Cap, ANY, Pred, Const, has, chain_names
-from rules.common import closure_of, closures_in, panic_sites
+from rules.common import closure_of, closures_in, panic_sites, state_locals, local_defs, V
 
 EW = 'corrupt::edit_word'
 
 
+R = {}
+
+
 def _var(name):
-    return Pred(lambda t: t[0] == 'var' and t[1] == name)
+    """role based (never the debug name): R maps a role to the local chosen by type / structure"""
+    return Pred(lambda t: isinstance(t, tuple) and t and t[0] == 'var' and len(t) > 2 and R.get(name) == t[2])
+
+
+def _one(b, ty, what):
+    c = state_locals(b, ty)
+    if len(c) != 1:
+        raise AnchorMissing('%s (mutable local of type %s): found %d' % (what, ty, len(c)))
+    return c[0]
 
 
 # ---------------------------------------------------------------------------
@@ -130,17 +141,15 @@ def _arms(ctx, b):
         elif any(has(x, Call('CanEdit::can_edit', ANY, ANY, ANY)) or has(x, Call('can_edit')) for x in rv):
             roles['swap-filter' if rng_kind == 'minus1' else 'delete-filter'] = c
         else:
-            gs = [g.atom()[0] for g in edge_guards(c)]
-            for g in gs:
-                cg = core(g)
-                if cg[0] == 'bin' and cg[3][0] == 'upvar':
-                    nm = cg[3][2]
-                    if 'insert' in nm:
-                        roles['insert-shift'] = c
-                    elif 'delete' in nm:
-                        roles['delete-shift'] = c
-                    elif 'replace' in nm:
-                        roles['replace-shift'] = c
+            # a re-indexing closure: its role is the edit kind of the match arm (edit_idx == 0 / 1 / 2) that uses it
+            for t in b.calls(r'Iterator::map$'):
+                a = sym(b, t.args[1])
+                if a[0] == 'agg' and a[2] == c.path:
+                    for g in guards_at(b, t.bb):
+                        if g.values is not None and len(g.values) == 1 and g.t[0] == 'index' and g.dty != 'bool':
+                            k = {0: 'insert-shift', 1: 'delete-shift', 2: 'replace-shift'}.get(list(g.values)[0])
+                            if k:
+                                roles[k] = c
     return roles
 
 
@@ -196,6 +205,8 @@ def r2(ctx):
       'idx + replacement_len - 1 (exact); swap unchanged; then the edited positions base..base+len are added')
 def r3(ctx):
     b = ctx.body(EW)
+    R.clear()
+    R['exclude_indices'] = _one(b, r'^std::collections::HashSet<usize>$', 'exclusion set')
     roles = _arms(ctx, b)
     table = {
         'insert-shift': ('Ge', lambda t: match(t, ('bin', 'Add', ('arg', 2, ANY), ('upvar', ANY, ANY)))),
